@@ -640,6 +640,7 @@ fn main() {
     // Level k+1: extends the histories of level k that are in the frontier.
     // Quick frontier: the last step changed the observable state (committed,
     // or refused-but-changed). Thorough frontier at level 1: everything.
+    let mut dry_reaches_commit: std::collections::BTreeSet<(usize, usize)> = Default::default();
     let mut frontier: Vec<(usize, Vec<Step>)> = vec![(0, vec![]), (1, vec![])];
     let mut completed_depth = 0;
     'levels: for depth in 1..=max_depth {
@@ -650,6 +651,13 @@ fn main() {
             let tail: Vec<Step> = alphabet
                 .iter()
                 .filter(|step| {
+                    // quick, beyond depth 1: a dry run is only enumerated for
+                    // the templates whose level-1 dry run got as far as the
+                    // commit step in this Space (the others end in the same
+                    // planning refusal as their commit-mode twin).
+                    if !thorough && depth > 1 && step.mode == Mode::DryRun && !dry_reaches_commit.contains(&(*w, step.t)) {
+                        return false;
+                    }
                     // PREVIEW KML cannot carry parameters: beyond depth 1 it is
                     // only enumerated for the templates that have none
                     // (thorough), or not at all (quick).
@@ -681,6 +689,9 @@ fn main() {
                     absorb(&mut run, &report, prefix_len, &tpl);
                     for checked in &report.checked {
                         let step = report.steps[checked.index];
+                        if depth == 1 && step.mode == Mode::DryRun && checked.outcome == Outcome::Dry {
+                            dry_reaches_commit.insert((w, step.t));
+                        }
                         let extend = if thorough && depth == 1 {
                             step.mode != Mode::Preview || checked.changed
                         } else if thorough {
